@@ -91,7 +91,7 @@ end M
 @[inline] def setBuf (b : CB) : M Unit := fun s => (.ok (), { s with buf := b })
 @[inline] def getSys : M Sys := fun s => (.ok s, s)
 @[inline] def emit (e : Event) : M Unit := fun s =>
-  (.ok (), if s.kind = .byte then s else { s with log := e :: s.log })
+  (.ok (), if s.kind = .byte ∧ e ≠ .alloc then s else { s with log := e :: s.log })
 /-- a fresh element id (identities exist only for tracked elements) -/
 @[inline] def fresh : M Nat := fun s =>
   if s.kind = .tracked then (.ok s.next, { s with next := s.next + 1 }) else (.ok 0, s)
